@@ -215,6 +215,9 @@ SimSuccCreate ==
                                                       ELSE <<"branch", "branch", "reinit">>[RandomElement(1..(3 + Z))]} :
         \E S \in {PickSuccSet(p)} : SuccCreate(kind, p, S)
 Joinable == {s \in 1..Len(succ) : DOMAIN succ[s].kp # {}}
+SimSuccForge ==
+    \E r \in OneMem : \E p \in {RParty} : \E kind \in {<<"reinit", "branch">>[RandomElement(1..(2 + Z))]} :
+        \E S \in {UNION {NewestSuccKp(q) : q \in Members(grp[r].tree) \ {p}}} : SuccForge(kind, p, r, S)
 SimSuccJoin ==
     Joinable # {} /\ \E s \in {RandomElement({x \in Joinable : Z = 0})} : \E q \in {RandomElement(DOMAIN succ[s].kp)} :
         \E how \in {IF HasGroup(q) THEN <<"reinit", "branch", "plain", succ[s].kind, succ[s].kind, succ[s].kind>>[RandomElement(1..(6 + Z))] ELSE "plain"} :
@@ -223,6 +226,7 @@ SimSucc ==
     \E r \in {RandomElement(1..(100 + Z))} :
         IF r <= 45 /\ ENABLED SimReinitCommit THEN SimReinitCommit /\ UNCHANGED <<obs, succ>>
         ELSE IF r <= 60 /\ ENABLED SimSuccGen THEN SimSuccGen /\ UNCHANGED obs
+        ELSE IF r <= 64 /\ ENABLED SimSuccForge THEN SimSuccForge /\ UNCHANGED obs
         ELSE IF r <= 80 /\ ENABLED SimSuccCreate THEN SimSuccCreate /\ UNCHANGED obs
         ELSE IF ENABLED SimSuccJoin THEN SimSuccJoin /\ UNCHANGED obs
         ELSE IF ENABLED SimSuccGen THEN SimSuccGen /\ UNCHANGED obs
